@@ -83,6 +83,9 @@ const (
 
 // Parse takes a data uri string or filename and converts it to Favicon.
 func Parse(s string) (Favicon, error) {
+	if s == "" {
+		return "", nil // no favicon
+	}
 	if strings.HasPrefix(s, dataImagePrefix) {
 		return Favicon(s), nil
 	}
